@@ -87,3 +87,15 @@ CASES += [
         (ABSC, "            for ll in range(Na):\n            \n                #nll = AG.monomers[ll].egcf_mapping[0]\n                \n                ct += kap[kk]*kap[ll]*cfm.get_coft(kk,ll)",
                "            ct += kap[kk]*kap[kk]*cfm.get_coft(kk,kk)\n            for ll in range(kk+1,Na):\n            \n                #nll = AG.monomers[ll].egcf_mapping[0]\n                \n                ct += 2.0*kap[kk]*kap[ll]*cfm.get_coft(kk,ll)", 1)]},
 ]
+
+_INT = "quantarhei/builders/interactions.py"
+_DD = ("    R = r1 - r2\n    RR = np.sqrt(np.dot(R,R))\n    \n    prf = 1.0/(4.0*const.pi*eps0_int)\n    \n"
+       "    cc = (np.dot(d1,d2)/(RR**3)\n        - 3.0*np.dot(d1,R)*np.dot(d2,R)/(RR**5))\n")
+CASES += [
+    {"name": "direction vector normalised in place (seeded change of round 6)", "kind": "mutant", "rule": "C11-K", "edits": [
+        (_INT, _DD, "    R = r1 - r2\n    RR = np.sqrt(np.dot(R,R))\n    R /= RR\n    prf = 1.0/(4.0*const.pi*eps0_int)\n"
+                    "    cc = (np.dot(d1,d2) - 3.0*np.dot(d1,R)*np.dot(d2,R))/(RR**3)\n", 1)]},
+    {"name": "direction vector normalised into a new array", "kind": "twin", "edits": [
+        (_INT, _DD, "    R = r1 - r2\n    RR = np.sqrt(np.dot(R,R))\n    R = R/RR\n    prf = 1.0/(4.0*const.pi*eps0_int)\n"
+                    "    cc = (np.dot(d1,d2) - 3.0*np.dot(d1,R)*np.dot(d2,R))/(RR**3)\n", 1)]},
+]
